@@ -3,6 +3,7 @@ import GB.C04.Spec
 import GB.C04.Refine
 import GB.C04.StageOracle
 import GB.C04.WF
+import GB.C04.Order
 /-
   C04 driver: parses one case line of harness/c04 (schema, binding, body, path/query parameters and the
   post-library oracles), runs the model `transcode` / `streamTranscode`, judges the implementation's
@@ -379,11 +380,15 @@ def judge (c : Case) (orc : Oracle) (stream : Bool) (dec : Dec) (impl : Res) : S
     | some w => some w
     | none => stageViol
   match specViol with
-  | some why => s!"VIOL {why} model={showRes (transcode c.sch orc c.root c.bd dec c.rq)}"
+  | some why => s!"VIOL {why} model={showRes (transcodeSorted c.sch orc c.root c.bd dec c.rq)}"
   | none =>
     if oraclesDisagree then s!"BAD the two specification oracles disagree: expectRules={specName (expectRules c.sch orc c.root c.bd dec c.rq)} stageExpect={specName st}" else
     if !wfInputs c.sch orc c.root c.rq then "BAD model inputs not well formed (dangling reference, illegal map key kind or oracle miss)"
     else
+    -- The code as fixed (fc13e30) applies the keys in SORTED order: the model is `transcodeSorted`, a plain
+    -- comparison (no allowance for Go map order any more — a recurrence of D4d is a DIFF). The pre-fix
+    -- any-order semantics is still enumerated, as a sanity check of the theorems about it only.
+    let model := transcodeSorted c.sch orc c.root c.bd dec c.rq
     let models := (orders c.rq).map (fun rq => transcode c.sch orc c.root c.bd dec rq)
     let okLeaves : List (List String) := models.filterMap (fun r => match r with
       | .ok m => some (renderLeaves m)
@@ -391,19 +396,15 @@ def judge (c : Case) (orc : Oracle) (stream : Bool) (dec : Dec) (impl : Res) : S
     let orderDependent : Bool := match okLeaves with
       | [] => false
       | l :: rest => rest.any (fun l' => l' != l)
-    if models.any (fun r => match r with
-        | .error .fault => true
-        | _ => false) then "BAD model-fault although the inputs are well formed (contradicts C04_no_fault)"
+    let isFault : Except Err Msg → Bool := fun r => match r with
+      | .error .fault => true
+      | _ => false
+    if models.any isFault || isFault model then "BAD model-fault although the inputs are well formed (contradicts C04_no_fault)"
     else if thm && orderDependent then "BAD order-dependent although C04_order_independent applies"
-    else if models.any (sameRes impl) && orderDependent then
-      match okLeaves with
-      | l :: rest =>
-        let other := (rest.find? (fun l' => l' != l)).getD []
-        "VIOL map-order-dependent: overlapping keys are applied in Go map iteration order, the accepted message is not a function of the request: ["
-          ++ String.intercalate ";" l ++ "] vs [" ++ String.intercalate ";" other ++ "]"
-      | [] => "BAD unreachable"
-    else if models.any (sameRes impl) then
-      let t := if thm then "-thm" else ""
+    else if (c.rq.pathParams.length ≤ 3 && c.rq.query.length ≤ 4) && !(models.any (fun r => showRes r == showRes model)) then
+      "BAD the sorted-order model is none of the any-order outcomes (contradicts C04_sorted_is_some_order)"
+    else if sameRes impl model then
+      let t := if thm then "-thm" else if orderDependent then "-ovl" else ""
       let br := match impl, sp with
         | .ok _, some _ => s!"ok-spec{t}"
         | .ok _, none => s!"ok-free{t}"
@@ -413,7 +414,7 @@ def judge (c : Case) (orc : Oracle) (stream : Bool) (dec : Dec) (impl : Res) : S
         | .ok m => if (leaves m).isEmpty then "" else " nt"
         | _ => ""
       s!"OK{nt} b={br}"
-    else s!"DIFF model={showRes (transcode c.sch orc c.root c.bd dec c.rq)} impl={showImpl impl}"
+    else s!"DIFF model={showRes model} impl={showImpl impl}"
 
 def combine (vs : List String) : String :=
   match vs.find? (fun v => v.startsWith "VIOL") with
@@ -539,8 +540,8 @@ def tsP : P String := do
         if decs.length != ra.length then s!"DIFF stream: {ra.length} results for {decs.length} decoded bodies"
         else
           -- the stream model is `streamTranscode`; each call is judged like a unary call (C04_stream)
-          let viaStream := streamTranscode c.sch orc c.root c.bd c.rq decs
-          let viaMap := decs.map (fun d => transcode c.sch orc c.root c.bd d c.rq)
+          let viaStream := streamTranscodeSorted c.sch orc c.root c.bd c.rq decs
+          let viaMap := decs.map (fun d => transcodeSorted c.sch orc c.root c.bd d c.rq)
           if viaStream.map showRes != viaMap.map showRes then "BAD stream model differs from per-message model"
           else combine ((decs.zip ra).map (fun p => judge c orc true p.1 p.2))
     pure (registryVerdict (j ra) (rb.map j) (rc.map j))
@@ -610,7 +611,7 @@ def stP : P String := do
         let verdicts := (decs.zip rs).zipIdx.map (fun ((d, r), i) =>
           let v := judge c orc true d r
           if v.startsWith "OK" || i == 0 then v
-          else if v.startsWith "VIOL map-order-dependent" || v.startsWith "VIOL path-variable-over-body-optional" then v
+          else if v.startsWith "VIOL path-variable-over-body-optional" then v
           else s!"VIOL binding-accumulated-across-messages: message {i + 1} sent to the target is not transcode(binding, path, query, body_{i + 1}) — it depends on earlier messages of the stream: {v}")
         -- the stream may end early only at a message that is rejected
         let endV : List String :=
@@ -622,7 +623,7 @@ def stP : P String := do
               let v2 := judge c orc true d (.err "Internal")
               if v1.startsWith "OK" then [v1] else if v2.startsWith "OK" then [v2]
               else if rs.length == 0 then [v1]
-              else if v1.startsWith "VIOL map-order-dependent" || v1.startsWith "VIOL path-variable-over-body-optional" then [v1]
+              else if v1.startsWith "VIOL path-variable-over-body-optional" then [v1]
               else [s!"VIOL binding-accumulated-across-messages: message {rs.length + 1} of the stream was refused although transcode(binding, path, query, body_{rs.length + 1}) accepts it: {v1}"]
         pure (combine (verdicts ++ endV))
 
